@@ -16,7 +16,7 @@ Idioms understood (enumerated from this repository): early return, `?`, if/if-le
 "optional": zero or one execution), closures handed to a spawn function (separate task: not part of the path unless
 the rule asks for it with `task_label`).
 """
-from .ir import OK_CTORS, ERR_CTORS, SOME_CTORS, NONE_CTORS, callee, short
+from .ir import OK_CTORS, ERR_CTORS, SOME_CTORS, NONE_CTORS, callee, short, walk
 
 # adaptors (by method name) through which the fallibility / constructor class of argument 0 passes unchanged
 TRANSPARENT = {'map_err', 'context', 'with_context', 'into_diagnostic', 'instrument', 'wrap_err', 'wrap_err_with',
@@ -66,8 +66,13 @@ def variant_tag(pat):
 
 class Tracer:
     def __init__(self, crate, classify, may_err=None, closure_mode=None, max_paths=4000, value_of_call=None,
-                 cond_events=(), cond_alias=None):
+                 cond_events=(), cond_alias=None, inline_local=False):
         self.crate = crate
+        # inline_local: an unlabelled call of a function of this crate whose body contains labelled events is replaced by the
+        # paths of that body (bounded depth) - statements moved into a private helper stay visible to the rule
+        self.inline_local = inline_local
+        self._has_ev = {}
+        self._inl_depth = 0
         self.classify = classify
         self.may_err = may_err or (lambda e: True)
         self.closure_mode = closure_mode or self.default_closure_mode
@@ -214,6 +219,23 @@ class Tracer:
             if sh in ('clone', 'as_ref', 'as_mut', 'iter', 'into_iter', 'iter_mut', 'take', 'to_owned') and core['args']:
                 inner = self.source_label(core['args'][0])
                 return inner + proj if inner else None
+            if self.inline_local and self._inl_depth < 3:
+                # a private helper whose result IS the result of a labelled call (`fn helper(..) { labelled(..).await.map_err(..) }`)
+                g = self._local_fn(callee(core))
+                if g is not None and self._has_events(g, 0):
+                    saved = self.env
+                    self.env = {}
+                    self._inl_depth += 1
+                    try:
+                        body = self.crate.user_body(g).hir
+                        tail = body
+                        while isinstance(tail, dict) and tail.get('k') == 'block' and 'tail' in tail:
+                            tail = tail['tail']
+                        inner = self.source_label(tail) if isinstance(tail, dict) else None
+                    finally:
+                        self.env = saved
+                        self._inl_depth -= 1
+                    return inner + proj if inner else None
             return None
         if core.get('k') == 'path' and core.get('res') == 'local':
             b = self.env.get(core.get('id'))
@@ -463,6 +485,13 @@ class Tracer:
             return self.seq(first, lambda: eval_items(items[1:]))
 
         r = eval_items(arg_items)
+        if self.inline_local and not L and self._inl_depth < 3:
+            g = self._local_fn(name)
+            if g is not None and self._has_events(g, 0):
+                inner = self._inline_fn(g)
+                # replace the opaque result of the call by the callee's own paths (its events, its Ok / Err value)
+                r = self.seq({(ex, t, 'unk') if ex == 'fall' else (ex, t, v) for (ex, t, v) in r}, lambda: inner)
+                return r
         if is_transparent(name) and args:
             a0 = self.expr(args[0])
             vals = {v for (ex, t, v) in a0 if ex == 'fall'}
@@ -470,6 +499,60 @@ class Tracer:
                 v0 = vals.pop()
                 r = {(ex, t, v0 if ex == 'fall' else v) for (ex, t, v) in r}
         return r
+
+    def _local_fn(self, name):
+        f = getattr(self.crate, 'fns', {}).get(name)
+        if f is None or getattr(f, 'hir', None) is None:
+            return None
+        return f
+
+    def _has_events(self, f, depth):
+        key = f.path
+        if key in self._has_ev:
+            return self._has_ev[key]
+        self._has_ev[key] = False       # recursion guard
+        found = False
+        bodies = [f] + self.crate.closures_of(f)
+        for b_ in bodies:
+            for nd, anc in walk(b_.hir):
+                if nd.get('k') in ('call', 'assign', 'assignop', 'struct'):
+                    try:
+                        if self.classify(nd, anc):
+                            found = True
+                            break
+                    except Exception:
+                        pass
+                    if nd.get('k') == 'call' and depth < 2:
+                        g = self._local_fn(callee(nd))
+                        if g is not None and g is not f and self._has_events(g, depth + 1):
+                            found = True
+                            break
+            if found:
+                break
+        self._has_ev[key] = found
+        return found
+
+    def _inline_fn(self, f):
+        saved_env, saved_ref = self.env, getattr(self, 'param_ref', {})
+        self._inl_depth += 1
+        try:
+            body = self.crate.user_body(f)
+            self.env = {}
+            paths = self.expr(body.hir)
+        finally:
+            self.env = saved_env
+            self.param_ref = saved_ref
+            self._inl_depth -= 1
+        out = set()
+        for (ex, t, v) in paths:
+            if ex in ('fall', 'ret'):
+                out.add(('fall', t, v))
+            elif ex == 'try':
+                out.add(('fall', t, 'err'))
+            elif ex == 'panic':
+                out.add((ex, t, v))
+            # break / continue cannot leave a function
+        return out or {('fall', (), 'unk')}
 
     def cond_eval(self, c):
         """(paths on which the condition holds, paths on which it does not) - handles `let` conditions, `&&` / `||`
